@@ -3,8 +3,10 @@
  * Shape: UNIT (0 s, 1 ms, 2 us, 3 ns), PRE.  Symbolic: data (64 bit), flags, ABSTIME bit, add-vs-enable entry point,
  * pool CLOEXEC setting, every kernel result (timerfd_create / epoll_ctl / timerfd_settime may fail with any errno).
  *
- * Oracle (independent of the code's div/mod): tv_sec * 10^9 + tv_nsec == data * unit_ns in 128-bit arithmetic,
- * 0 <= tv_nsec < 10^9, tv_sec >= 0. */
+ * Oracle: with U = unit in ns and S = 10^9 / U, the programmed value is tv_sec == data / S, tv_nsec == (data % S) * U
+ * (Euclid form), it must be a normalised timespec, and data / S must fit time_t.  lemma.c proves (cvc5) that the Euclid
+ * form satisfies tv_sec * 10^9 + tv_nsec == data * U in 128-bit arithmetic; asserting the 128-bit product here directly
+ * is a multiplier/divider equivalence that CaDiCaL and kissat did not decide in 120 s [measured]. */
 #include "verif.h"
 #include "common/tpev/tpev_in.h"
 
@@ -32,8 +34,6 @@ struct in_s {
 #define PRE 0
 #endif
 
-typedef unsigned __int128 u128;
-static const uint64_t unit_ns[4] = { 1000000000ull, 1000000ull, 1000ull, 1ull };
 static int n_cb;
 static void cb(tp_event_p ev, tp_udata_p ud) { (void)ev; (void)ud; n_cb++; }
 
@@ -60,7 +60,7 @@ void harness(void) {
 	uint32_t fflags = (uint32_t)UNIT | (IN.abstime ? TP_FF_T_ABSTIME : 0);
 	uint64_t data = IN.data;
 #ifdef KF_TIMER_USEC
-	V_ASSUME(!(UNIT == 2 && (data % 1000000ull) != 0));	/* known finding timer-usec (blocking clause) */
+	V_ASSUME(!(UNIT == 2 && (data % 1000000ul) != 0));	/* known finding timer-usec (blocking clause) */
 #endif
 	tp_event_t ev = { .event = TP_EV_TIMER, .flags = flags, .fflags = fflags, .data = data };
 	int r;
@@ -72,8 +72,18 @@ void harness(void) {
 	}
 	/* (enable on a udata that was never added has tp_udata->tpt == NULL and is refused: covered in validate.c) */
 
-	u128 want = (u128)data * unit_ns[UNIT];
-	int representable = want <= (u128)INT64_MAX * 1000000000ull + 999999999ull;	/* seconds fit time_t (no 128-bit division: cost) */
+	/* literal constants (not table look-ups): CBMC then shares the divider circuit with the code's own division,
+	 * which is what makes this equality cheap for SAT */
+#if UNIT == 0
+	uint64_t want_sec = data, want_nsec = 0;
+#elif UNIT == 1
+	uint64_t want_sec = data / 1000ul, want_nsec = (data % 1000ul) * 1000000ul;
+#elif UNIT == 2
+	uint64_t want_sec = data / 1000000ul, want_nsec = (data % 1000000ul) * 1000ul;
+#else
+	uint64_t want_sec = data / 1000000000ul, want_nsec = (data % 1000000000ul);
+#endif
+	int representable = (want_sec <= (uint64_t)INT64_MAX);	/* seconds fit time_t */
 	int env_ok = 1;
 	for (int i = base_cre; i < tpev_n_cre; i++) if (tpev_log_cre[i].ret < 0) env_ok = 0;
 	for (int i = base_ctl; i < tpev_n_ctl; i++) if (IN.env.ctl_err[i] != 0) env_ok = 0;
@@ -108,8 +118,8 @@ void harness(void) {
 		V_ASSERT(ti >= 0, "timerfd still open");
 		V_ASSERT(tpev_t[ti].clock == (IN.abstime ? CLOCK_REALTIME : CLOCK_MONOTONIC), "clock of the armed descriptor matches ABSTIME");
 		V_ASSERT(tpev_ts_valid(&l->v.it_value), "it_value is a normalised timespec");
-		V_ASSERT((u128)(uint64_t)l->v.it_value.tv_sec * 1000000000ull + (u128)(uint64_t)l->v.it_value.tv_nsec == want,
-		    "it_value == data * unit (128-bit)");
+		V_ASSERT((uint64_t)l->v.it_value.tv_sec == want_sec && (uint64_t)l->v.it_value.tv_nsec == want_nsec,
+		    "it_value == data * unit (Euclid form; 128-bit product by lemma.c)");
 		if (flags & (TP_F_ONESHOT | TP_F_DISPATCH))
 			V_ASSERT(l->v.it_interval.tv_sec == 0 && l->v.it_interval.tv_nsec == 0, "one-shot/dispatch: zero interval");
 		else
@@ -120,11 +130,11 @@ void harness(void) {
 		    "udata remembers the timerfd, the event kind, and is enabled");
 		V_ASSERT(tpev_k_find(TPEV_EPFD, tfd) >= 0, "timerfd registered in epoll");
 		V_ASSERT(tpev_n_close == 0, "nothing closed on success");
-		if (UNIT == 2 && data % 1000000ull) V_WITNESS("microseconds with sub-second part accepted");
+		if (UNIT == 2 && want_nsec != 0) V_WITNESS("microseconds with sub-second part accepted");
 		if (data == 0) V_WITNESS("zero value");
 		if (IN.abstime) V_WITNESS("absolute timer accepted");
 		if (flags == 0) V_WITNESS("periodic timer accepted");
-		if (want > (u128)0xffffffffull * 1000000000ull + 999999999ull) V_WITNESS("seconds above 2^32 accepted");
+		if (want_sec > 0xffffffffull) V_WITNESS("seconds above 2^32 accepted");
 		V_WITNESS_MUST("timer accepted");
 	} else {
 		/* refused: nothing may stay installed */
